@@ -226,6 +226,16 @@ func genC02(tier, out string, sum *Summary) {
 			sum.count("small-scope")
 		}
 	}
+	// a JSON number that no decimal128 can hold is still a number: the numeric built-ins must not call it an
+	// argument of the wrong type (recorded as a known finding: they do)
+	bigN := map[string]any{"n": json.Number("1e7000"), "m": json.Number("-1e7000"), "t": json.Number("1e-7000")}
+	for _, e := range []string{"abs(n)", "ceil(n)", "floor(m)", "sum([n])", "avg([n, n])", "max([n])", "min([m, n])", "sort([n, m])", "pad_left('a', n)", "abs(`1e7000`)", "n + `1`", "n * m", "- n"} {
+		o := search(e, bigN)
+		sum.count("number-out-of-decimal-range")
+		if o.Kind == "err" && len(o.Cats) == 1 && o.Cats[0] == "CInvalidType" {
+			sum.direct("number-out-of-decimal-range", e, bigN, "the argument is a JSON number (type() says number) but the call fails with "+describe(o))
+		}
+	}
 	// a type fault anywhere wins over a value fault anywhere else
 	for _, e := range []string{"pad_left('a', `-1`, `5`)", "pad_left(`1`, `-1`)", "pad_right('a', `1.5`, `1`)", "pad_right(`1`, `2`, 'xy')", "split('a', `1`, `-1`)", "split(`1`, 'a', `-1`)", "split(`1`, 'a', `0.5`)",
 		"replace('a', 'a', `1`, `-1`)", "replace('a', `1`, 'b', `1.5`)", "replace(`1`, 'a', 'b', `-1`)", "find_first('a', 'a', `1.5`, 'x')", "find_last('a', 'a', `1.5`, 'x')", "find_first('a', 'a', `1.5`, `null`)", "find_last('a', 'a', `0.5`, `[]`)",
